@@ -942,12 +942,84 @@ func (e *termEngine) loadPath(root ssa.Value, path []string, at ssa.Instruction)
 		}
 		return &Term{Op: "load", Args: []*Term{e.symbolicLoc(root, path)}}
 	}
+	if a, ok := root.(*ssa.Alloc); ok && fn.Recover != nil && (at.Block() == fn.Recover || fn.Recover.Dominates(at.Block())) {
+		return e.recoverValue(fn, a, path)
+	}
 	if len(ws) == 0 {
 		return initial()
 	}
 	key := rk + "|" + strings.Join(path, "/")
 	st := &memState{e: e, m: m, root: root, path: path, ws: ws, initial: initial, key: key, memo: map[*ssa.BasicBlock]*Term{}, busy: map[*ssa.BasicBlock]bool{}}
 	return st.before(at)
+}
+
+// recoverValue: what a local holds when the function resumes in its recover
+// block (after a panic somewhere in the body and the deferred calls): the
+// value every recovering path of a deferred closure stores into it; zero when
+// nothing ever writes it; otherwise unknown.
+func (e *termEngine) recoverValue(fn *ssa.Function, a *ssa.Alloc, path []string) *Term {
+	unknown := T("dirty", "value at the time of the panic")
+	captured := false
+	uniq := map[string]*Term{}
+	for _, b := range fn.Blocks {
+		for _, in := range b.Instrs {
+			d, ok := in.(*ssa.Defer)
+			if !ok {
+				continue
+			}
+			mc, ok := d.Call.Value.(*ssa.MakeClosure)
+			if !ok {
+				for _, arg := range d.Call.Args {
+					if r, _ := e.pointerRoot(arg); r == ssa.Value(a) {
+						return unknown
+					}
+				}
+				continue
+			}
+			C := mc.Fn.(*ssa.Function)
+			for k, bnd := range mc.Bindings {
+				if bnd != ssa.Value(a) {
+					continue
+				}
+				captured = true
+				fv := C.FreeVars[k]
+				for _, p := range e.P.allPaths(C) {
+					if !p.feasible() {
+						continue
+					}
+					notRecovered := false
+					for _, c := range p.conds {
+						if c.Val && c.Pred.Op == "binop" && c.Pred.S == "==" && c.Pred.contains(func(u *Term) bool { return u.Op == "recover" }) {
+							notRecovered = true
+						}
+					}
+					if notRecovered {
+						continue
+					}
+					v := p.eng.loadPath(fv, path, p.ret)
+					if v.contains(func(u *Term) bool { return u.Op == "freevar" && u.S == fv.Name() }) {
+						return unknown // some recovering path leaves the variable as it was
+					}
+					uniq[v.String()] = v
+				}
+			}
+		}
+	}
+	if captured {
+		if len(uniq) == 1 {
+			for _, v := range uniq {
+				return v
+			}
+		}
+		return unknown
+	}
+	m := e.model(fn)
+	for _, w := range m.writes[e.rootKey(a)] {
+		if pathOverlap(w.path, path) {
+			return unknown
+		}
+	}
+	return T("zero", "")
 }
 
 type memState struct {
